@@ -102,6 +102,9 @@ inductive Op
   | status (n : Int)                              -- `resp.status = n`
   | init (st : Option Int) (hdrs more : List (Str × PyVal))  -- `resp.__init__('', st, hdrs, **more)`
   | error (st : Option Int) (opts : List (Str × PyVal))      -- `HTTPError(st, '', **opts).apply(resp)`
+  | initMap (st : Option Int) (keys : List Str) (more : List (Str × PyVal))
+      -- `resp.__init__('', st, m, **more)` where `m` is a MAPPING THAT IS NOT A `dict` (a `HeaderDict`, another
+      -- response's `.headers`, a mapping proxy) with these keys: only a `dict` is asked for its items
   | cookie (name out : Str)                       -- a `set_cookie` whose morsel prints as `out`
   deriving Repr
 
@@ -153,6 +156,23 @@ def initResp (dflt : Nat) (st : Option Int) (hdrs more : List (Str × PyVal)) : 
       let (d', e) := appendAll d more
       ({ status := some code, store := d', cookies := [] }, e)
 
+/-- `for name, value in headers` over a mapping that is not a `dict`: iteration yields the KEYS, and each key
+(a string) is unpacked into two targets - a key of exactly two characters gives (first, second), any other raises
+`ValueError` ("too many / not enough values to unpack").  The values held by the mapping are never looked at. -/
+def unpackKeys : List Str → List (Str × PyVal) × Option Err
+  | [] => ([], Option.none)
+  | [a, b] :: r => let (ps, e) := unpackKeys r; (([a], PyVal.str [b]) :: ps, e)
+  | _ :: _ => ([], some .valueError)
+
+/-- `BaseResponse.__init__(body, status, m, **more)` with such a mapping `m` (an empty one is falsy: skipped) -/
+def initRespMap (dflt : Nat) (st : Option Int) (keys : List Str) (more : List (Str × PyVal)) : Resp × Option Err :=
+  match unpackKeys keys with
+  | (ps, Option.none) => initResp dflt st ps more
+  | (ps, some err) =>
+    match initResp dflt st ps [] with
+    | (r, some e) => (r, some e)          -- the status setter or an earlier `append` raised first
+    | (r, Option.none) => (r, some err)
+
 /-- one operation: the new state and the exception raised, if any -/
 def step (r : Resp) : Op → Resp × Option Err
   | .setitem k v => match setitem r.store k v with
@@ -179,6 +199,7 @@ def step (r : Resp) : Op → Resp × Option Err
     | .ok c => ({ r with status := some c }, Option.none)
     | .error e => (r, some e)
   | .init st hdrs more => initResp Gen.defaultStatus st hdrs more
+  | .initMap st keys more => initRespMap Gen.defaultStatus st keys more
   | .error st opts =>
     match initResp Gen.errorDefaultStatus st [] opts with
     | (_, some e) => (r, some e)                       -- the constructor raised: nothing to apply
